@@ -229,4 +229,20 @@ theorem C01_wiring :
     Sso.Generated.skel_proxy_Favicon =
       ["call:Authenticate", "if{", "call:WriteHeader", "return", "}", "call:Proxy"] := by decide
 
+/-- Tie (T1), second wave: helpers, stores and second callers on this property's path (sessions_LifetimePeriodExpired, sessions_RefreshPeriodExpired, sessions_ValidationPeriodExpired, store_ClearSession, store_SaveSession, proxy_SignOut) — call/branch/store skeletons
+regenerated from the source on every run against the expectations frozen here. -/
+theorem C01_wiring2 :
+    Sso.Generated.skel_sessions_LifetimePeriodExpired =
+      ["call:isExpired", "return"] ∧
+    Sso.Generated.skel_sessions_RefreshPeriodExpired =
+      ["call:isExpired", "return"] ∧
+    Sso.Generated.skel_sessions_ValidationPeriodExpired =
+      ["call:isExpired", "return"] ∧
+    Sso.Generated.skel_store_ClearSession =
+      ["call:Now", "call:makeSessionCookie", "call:SetCookie"] ∧
+    Sso.Generated.skel_store_SaveSession =
+      ["call:MarshalSession", "if{", "return", "}", "call:setSessionCookie", "return"] ∧
+    Sso.Generated.skel_proxy_SignOut =
+      ["call:ClearSession", "if{", "if{", "}", "else{", "}", "}", "call:GetSignOutURL", "call:String", "call:Redirect"] := by decide
+
 end Sso.Proxy
